@@ -3,6 +3,7 @@ import MD.Proofs.IsoFitLemmas
 import MD.Proofs.IdentLemmas
 import Mathlib.Tactic.Linarith
 import Mathlib.Tactic.Ring
+import Mathlib.Tactic.FieldSimp
 import Mathlib.Order.MinMax
 import Mathlib.Algebra.Order.Field.Basic
 import Mathlib.Algebra.BigOperators.Group.List.Basic
@@ -13,6 +14,7 @@ import Mathlib.Algebra.BigOperators.Group.List.Basic
 * `plt_mapM_*` — inversion of `List.mapM` in `Except`;
 * `plt_reliabilityCurve_inv` — a reliability curve is the fitted model's thresholds;
 * `plt_first`, `plt_last` — the first / last threshold sits at the smallest / largest training `X`;
+* `plt_interp_sub` — interpolating `tx - ty` inside the threshold range gives `q - interp tx ty q`;
 * `plt_averageK_*`, `plt_elem*` — Murphy curves. -/
 
 set_option linter.unusedSectionVars false
@@ -290,6 +292,45 @@ theorem plt_last (F : fit_Fitted inc xs yiso r tx ty) :
   exact F.ties c (yiso.length - 1) hcn (by omega) hx
 
 end Ends
+
+/-! ### The bias variant under interpolation -/
+
+theorem plt_get!_zipWith_sub (tx ty : List K) (hlen : ty.length = tx.length) (i : Nat)
+    (hi : i < tx.length) : (List.zipWith (· - ·) tx ty)[i]! = tx[i]! - ty[i]! := by
+  rw [fit_get! _ i (by simp; omega), fit_get! _ i hi, fit_get! _ i (by omega)]
+  simp
+
+/-- inside the range of the thresholds, interpolating `tx - ty` gives `q - interp tx ty q` -/
+theorem plt_interp_sub (tx ty : List K) (q : K) (hn : 0 < tx.length) (hlen : ty.length = tx.length)
+    (h0 : tx[0]! ≤ q) (h1 : q ≤ tx[tx.length - 1]!) :
+    interp tx (List.zipWith (· - ·) tx ty) q = q - interp tx ty q := by
+  rw [fit_interp_unfold, fit_interp_unfold tx ty]
+  rw [if_neg (not_lt.mpr h0), if_neg (not_lt.mpr h1), if_neg (not_lt.mpr h0),
+    if_neg (not_lt.mpr h1)]
+  obtain ⟨hpj, _⟩ := fit_lastIdx_spec (fun i => tx[i]! ≤ q) tx.length 0 hn h0
+  have hmax := fit_lastIdx_spec (fun i => tx[i]! ≤ q) tx.length
+  have hb := fit_lastIdx_bound (fun i => tx[i]! ≤ q) tx.length
+  generalize fit_lastIdx (fun i => tx[i]! ≤ q) tx.length = j at *
+  have hj : j < tx.length := by omega
+  by_cases h3 : j + 1 ≥ tx.length
+  · rw [if_pos h3, if_pos h3, plt_get!_zipWith_sub tx ty hlen _ (by omega)]
+    have : j = tx.length - 1 := by omega
+    subst this
+    have : q = tx[tx.length - 1]! := le_antisymm h1 hpj
+    rw [← this]
+  · rw [if_neg h3, if_neg h3, plt_get!_zipWith_sub tx ty hlen j hj,
+      plt_get!_zipWith_sub tx ty hlen (j + 1) (by omega)]
+    have hlt : q < tx[j + 1]! := by
+      by_contra hcon
+      rw [not_lt] at hcon
+      have := (hmax (j + 1) (by omega) hcon).2
+      omega
+    have hd : tx[j + 1]! - tx[j]! ≠ 0 := by
+      have : tx[j]! < tx[j + 1]! := lt_of_le_of_lt hpj hlt
+      intro h
+      linarith
+    field_simp
+    ring
 
 /-! ## `averageK` -/
 
